@@ -58,6 +58,60 @@ def gen_fixed(rng):
             "u1": eq(Fr(rng.randrange(1, 16), 16)), "u2": eq(Fr(rng.randrange(1, 16), 16))}
 
 
+HANDLERS = ("summed", "cellbounding", "cellveto")
+
+
+def zero_patterns(n):
+    """all sets of at most two neutral positions of a composite object of n point masses"""
+    pats = [()]
+    pats += [(i,) for i in range(n)]
+    pats += [(i, j) for i in range(n) for j in range(i + 1, n)]
+    return pats
+
+
+def gen_composite(rng, k):
+    """k-th composite case: handler class, size, neutral positions cycle systematically; values are random"""
+    handler = HANDLERS[k % 3]
+    n = (2, 3, 4)[(k // 3) % 3]
+    pats = zero_patterns(n)
+    z0 = pats[(k // 9) % len(pats)]
+    z1 = pats[rng.randrange(len(pats))] if rng.random() < 0.7 else ()
+    if rng.random() < 0.5:
+        z0, z1 = z1, z0
+    charged = rng.random() < 0.8
+
+    def vec(zs):
+        return [Fr(0) if i in zs else rng.choice([Fr(1), Fr(-1), Fr(1, 2), Fr(-41, 50), Fr(rng.randrange(1, 9), 4)])
+                for i in range(n)]
+    charges = [vec(z0), vec(z1)]
+    ac = rng.randrange(2)
+    nonneutral = [i for i in range(n) if charges[ac][i] != 0] if charged else list(range(n))
+    a = rng.choice(nonneutral) if nonneutral and rng.random() < 0.95 else rng.randrange(n)
+    for _ in range(50):
+        base = [[rq(rng) if rng.random() < 0.9 else Fr(0) for _ in range(n)] for _ in range(n)]
+        q = charges if charged else [[Fr(1)] * n, [Fr(1)] * n]
+        if sum(base[a][j] * q[ac][a] * q[1 - ac][j] for j in range(n)) > 0 or rng.random() < 0.03:
+            break
+    return {"kind": "composite", "handler": handler, "scheme": rng.choice(SCHEMES), "n": n, "active_comp": ac,
+            "active": a, "charge": "q" if charged else None, "charges": [[eq(x) for x in c] for c in charges],
+            "zero_positions": [list(z0), list(z1)], "base": [[eq(x) for x in row] for row in base],
+            "u_confirm": eq(Fr(0)), "u1": eq(Fr(rng.randrange(1, 16), 16)), "u2": eq(Fr(rng.randrange(1, 16), 16))}
+
+
+def expected_composite(job):
+    """the factor's derivative table, from the stub potential's derivatives times the charges (Fractions only)"""
+    n, ac, a = job["n"], job["active_comp"], job["active"]
+    base = [[dq(x) for x in row] for row in job["base"]]
+    ch = [[dq(x) for x in c] for c in job["charges"]] if job["charge"] else [[Fr(1)] * n, [Fr(1)] * n]
+    pd = [[base[i][j] * ch[ac][i] * ch[1 - ac][j] for j in range(n)] for i in range(n)]
+    factor = sum(pd[a], Fr(0))
+    if factor <= 0:
+        return factor, []
+    loc = [((ac, i), factor if i == a else sum(pd[i], Fr(0)), i == a) for i in range(n)]
+    tgt = [((1 - ac, j), -sum((pd[i][j] for i in range(n)), Fr(0)), False) for j in range(n)]
+    return factor, [(r, i, f) for i, r, f in (loc + tgt if ac == 0 else tgt + loc)]
+
+
 def code(ident):
     return ident[0] * 100 + ident[1] if len(ident) == 2 else ident[0]
 
@@ -65,7 +119,27 @@ def code(ident):
 def oracle(job, res):
     """-> (failure message or None, Coq term or None)"""
     ins = [(dq(r), tuple(i), a) for r, i, a in res["inserts"]]
-    if job["kind"] == "fill":
+    if job["kind"] == "composite":
+        if isinstance(res["r"], list):
+            return "%s handler: send_out_state raised %s" % (job["handler"], res["r"][1]), None
+        if res["notes"]:
+            return "%s handler: %s" % (job["handler"], res["notes"][0]), None
+        factor, want = expected_composite(job)
+        if ins != want:
+            return ("%s handler (charge=%r, charges %s, active (%d, %d)): inserted table %s is not the factor's "
+                    "derivative table %s" % (job["handler"], job["charge"],
+                                             [[str(dq(x)) for x in c] for c in job["charges"]], job["active_comp"],
+                                             job["active"], [(str(r), i, f) for r, i, f in ins],
+                                             [(str(r), i, f) for r, i, f in want])), None
+        if res["r"] != "state":
+            return "send_out_state did not return the stored state", None
+        if not want:
+            return (None if res["exchanged"] == [] else "velocity exchanged although the factor derivative is <= 0"), None
+        if len(res["exchanged"]) != 1 or tuple(res["exchanged"][0][0]) != (job["active_comp"], job["active"]):
+            return "exchange_velocity calls %r" % res["exchanged"], None
+        res = dict(res)
+        res["r"] = res["exchanged"][0][1]
+    elif job["kind"] == "fill":
         pd = [[dq(x) for x in row] for row in job["pd"]]
         nl, nt, a, lc = job["nl"], job["nt"], job["active"], job["local_comp"]
         loc = [((lc, i), sum(pd[i], Fr(0)), i == a) for i in range(nl)]
@@ -87,7 +161,9 @@ def oracle(job, res):
     if sum(r for r, _, _ in ins) != 0:
         return "the inserted table does not sum to zero", None
     sel = res["r"]
-    if job["kind"] == "fixed":
+    if job["kind"] == "composite":
+        pass
+    elif job["kind"] == "fixed":
         if len(res["exchanged"]) != 1 or res["exchanged"][0][0] != job["active"]:
             return "exchange_velocity calls %r" % res["exchanged"], None
         sel = [res["exchanged"][0][1]]
@@ -106,7 +182,8 @@ def oracle(job, res):
 
 def run(ctx, rng, replay_job=None):
     jobs = [replay_job] if replay_job is not None else \
-        [gen_fill(rng) for _ in range(ctx.n(300, 3000))] + [gen_fixed(rng) for _ in range(ctx.n(150, 1500))]
+        [gen_fill(rng) for _ in range(ctx.n(300, 3000))] + [gen_fixed(rng) for _ in range(ctx.n(150, 1500))] + \
+        [gen_composite(rng, k) for k in range(ctx.n(540, 5400))]
     chunks = [jobs[i:i + 100] for i in range(0, len(jobs), 100)]
     outs = C.run_driver_parallel(ctx, "c05_glue", [{"jobs": ch} for ch in chunks])
     flat = [r for o in outs for r in o["out"]]
@@ -118,7 +195,16 @@ def run(ctx, rng, replay_job=None):
         elif t:
             terms.append(t)
             owners.append(job)
+    comp = [j for j in jobs if j["kind"] == "composite"]
+    dims = {}
+    for j in comp:
+        for z in j["zero_positions"]:
+            key = "%s n=%d charge=%s neutral=%s" % (j["handler"], j["n"], "q" if j["charge"] else "None",
+                                                    ",".join(map(str, z)) or "-")
+            dims[key] = dims.get(key, 0) + 1
     return {"fails": fails, "terms": terms, "owners": owners, "n": len(jobs),
-            "summary": {"fill_lifting_calls": sum(1 for j in jobs if j["kind"] == "fill"),
+            "summary": {"composite_send_out_state_calls(real handler instances)": len(comp),
+                        "composite_cases_by(handler, points per object, charge, neutral positions of an object)": dims,
+                        "fill_lifting_calls": sum(1 for j in jobs if j["kind"] == "fill"),
                         "fixed_separations_send_out_state_calls": sum(1 for j in jobs if j["kind"] == "fixed"),
                         "tables_also_checked_against_the_model": len(terms)}}
